@@ -43,12 +43,31 @@ func (b *lfsmBackend) propose(u kv.Update) (sm.Result, error) {
 	return out[0].Result, nil
 }
 
-func (b *lfsmBackend) Set(key, value string, ver uint64) (kv.Pair, error) {
-	pair := kv.Pair{Key: key, Value: value, Ver: ver}
-	res, err := b.propose(kv.Update{Op: kv.UpdateOpSet, KVPair: pair})
-	if err != nil {
-		return kv.Pair{}, err
+// proposeBatch commits several proposals the way the Raft group does when they arrive in the
+// same step: consecutive indices, ONE Update call.
+func (b *lfsmBackend) proposeBatch(ups []kv.Update) ([]sm.Result, error) {
+	entries := make([]sm.Entry, len(ups))
+	for i, u := range ups {
+		cmd, err := json.Marshal(u)
+		if err != nil {
+			return nil, err
+		}
+		b.idx++
+		entries[i] = sm.Entry{Index: b.idx, Cmd: cmd}
 	}
+	out, err := b.fsm.Update(entries)
+	if err != nil {
+		return nil, err
+	}
+	res := make([]sm.Result, len(out))
+	for i := range out {
+		res[i] = out[i].Result
+	}
+	return res, nil
+}
+
+// decodeSetResult / decodeDeleteResult map a state machine result the way kv.RaftStore does.
+func decodeSetResult(res sm.Result, pair kv.Pair) (kv.Pair, error) {
 	if err := json.Unmarshal(res.Data, &pair); err != nil {
 		return kv.Pair{}, err
 	}
@@ -58,15 +77,28 @@ func (b *lfsmBackend) Set(key, value string, ver uint64) (kv.Pair, error) {
 	return pair, nil
 }
 
+func decodeDeleteResult(res sm.Result) error {
+	if res.Value == kv.ResultCodeVersionMismatch {
+		return kv.ErrVersionMismatch
+	}
+	return nil
+}
+
+func (b *lfsmBackend) Set(key, value string, ver uint64) (kv.Pair, error) {
+	pair := kv.Pair{Key: key, Value: value, Ver: ver}
+	res, err := b.propose(kv.Update{Op: kv.UpdateOpSet, KVPair: pair})
+	if err != nil {
+		return kv.Pair{}, err
+	}
+	return decodeSetResult(res, pair)
+}
+
 func (b *lfsmBackend) Delete(key string, ver uint64) error {
 	res, err := b.propose(kv.Update{Op: kv.UpdateOpDelete, KVPair: kv.Pair{Key: key, Ver: ver}})
 	if err != nil {
 		return err
 	}
-	if res.Value == kv.ResultCodeVersionMismatch {
-		return kv.ErrVersionMismatch
-	}
-	return nil
+	return decodeDeleteResult(res)
 }
 
 func (b *lfsmBackend) Get(key string) (kv.Pair, error) {
@@ -166,9 +198,9 @@ const (
 
 type runResult struct {
 	status   int
-	choices  []int   // index into the enabled set, per decision
-	nopts    []int   // size of the enabled set, per decision
-	nodes    []uint8 // client chosen, per decision
+	choices  []int   // index into the option list, per decision
+	nopts    []int   // number of options, per decision
+	picks    [][]int // clients released per decision (one, or an ordered batch of writers)
 	trace    []step
 	outcomes [][]byte // per node, per call: outcome code of the return value
 	viol     []violation
@@ -185,10 +217,10 @@ func (rr *runResult) sig() string {
 	return string(b)
 }
 
-func (rr *runResult) schedule() []int {
-	out := make([]int, len(rr.nodes))
-	for i, n := range rr.nodes {
-		out[i] = int(n)
+func (rr *runResult) schedule() [][]int {
+	out := make([][]int, len(rr.picks))
+	for i, p := range rr.picks {
+		out[i] = append([]int{}, p...)
 	}
 	return out
 }
@@ -286,9 +318,30 @@ func doCall(mgr *table.Manager, cl *client, kind int, tbl, key string) byte {
 	return cl.endCall(ok, err)
 }
 
-// run executes one schedule of sc. choose returns the index into enabled (client ids, ascending)
-// of the operation to release next, or -1 to give up (divergence).
-func (w *worker) run(sc script, choose func(depth int, enabled []int) int) *runResult {
+// orderedSubsets lists every ordered selection of at least two elements of ws.
+func orderedSubsets(ws []int) [][]int {
+	var out [][]int
+	var rec func(cur []int, used uint)
+	rec = func(cur []int, used uint) {
+		if len(cur) >= 2 {
+			out = append(out, append([]int{}, cur...))
+		}
+		for i, x := range ws {
+			if used&(1<<uint(i)) == 0 {
+				rec(append(cur, x), used|1<<uint(i))
+			}
+		}
+	}
+	rec(nil, 0)
+	return out
+}
+
+// run executes one schedule of sc. At every decision the options are: release one parked
+// operation (clients ascending), and - with batch - commit two or more parked lease WRITES, in
+// any order, as one batch (consecutive log indices, ONE Update call of the state machine: what
+// the Raft group does with proposals that arrive together). choose returns the index of the
+// option to take, or -1 to give up (divergence).
+func (w *worker) run(sc script, batch bool, choose func(depth int, opts [][]int) int) *runResult {
 	n := len(sc)
 	rc := &runCtx{events: make(chan event), abort: make(chan struct{}), grants: make([]chan struct{}, n+1)}
 	mon := newMonitor(newLFSMBackend(), w.st, true)
@@ -297,7 +350,7 @@ func (w *worker) run(sc script, choose func(depth int, enabled []int) int) *runR
 	for i := 0; i < n; i++ {
 		rc.grants[i+1] = make(chan struct{})
 		cl := w.cls[i]
-		cl.m, cl.cur, cl.gate = mon, nil, rc.gate
+		cl.m, cl.cur, cl.pw, cl.gate = mon, nil, nil, rc.gate
 	}
 	for i := 0; i < n; i++ {
 		// mgr/cl are captured here: after a watchdog the worker gets fresh ones while the
@@ -350,33 +403,57 @@ func (w *worker) run(sc script, choose func(depth int, enabled []int) int) *runR
 			return giveUp(runWatchdog)
 		}
 	}
-	enabled := make([]int, 0, n)
+	singles := make([][]int, n+1)
+	for i := 1; i <= n; i++ {
+		singles[i] = []int{i}
+	}
+	opts := make([][]int, 0, n)
+	var writers []int
+	grp := uint8(0)
 	for depth := 0; ; depth++ {
-		enabled = enabled[:0]
+		opts, writers = opts[:0], writers[:0]
 		for i := 1; i <= n; i++ {
 			if state[i] == sParked {
-				enabled = append(enabled, i)
+				opts = append(opts, singles[i])
+				if batch && w.cls[i-1].pw != nil {
+					writers = append(writers, i)
+				}
 			}
 		}
-		if len(enabled) == 0 {
+		if len(opts) == 0 {
 			break
 		}
-		ci := choose(depth, enabled)
-		if ci < 0 || ci >= len(enabled) {
+		if len(writers) >= 2 {
+			opts = append(opts, orderedSubsets(writers)...)
+		}
+		ci := choose(depth, opts)
+		if ci < 0 || ci >= len(opts) {
 			return giveUp(runDiverged)
 		}
-		node := enabled[ci]
+		pick := opts[ci]
 		rr.choices = append(rr.choices, ci)
-		rr.nopts = append(rr.nopts, len(enabled))
-		rr.nodes = append(rr.nodes, uint8(node))
-		state[node] = sRunning
-		select {
-		case rc.grants[node] <- struct{}{}:
-		case <-timer.C:
-			return giveUp(runWatchdog)
+		rr.nopts = append(rr.nopts, len(opts))
+		rr.picks = append(rr.picks, pick)
+		if len(pick) > 1 {
+			// group commit: the scheduler proposes the parked writes itself, in one batch; the
+			// writers are then released one by one and find their results
+			grp++
+			cls := make([]*client, len(pick))
+			for k, node := range pick {
+				cls[k] = w.cls[node-1]
+			}
+			mon.commitBatch(cls, grp)
 		}
-		if !recv(node) {
-			return giveUp(runWatchdog)
+		for _, node := range pick {
+			state[node] = sRunning
+			select {
+			case rc.grants[node] <- struct{}{}:
+			case <-timer.C:
+				return giveUp(runWatchdog)
+			}
+			if !recv(node) {
+				return giveUp(runWatchdog)
+			}
 		}
 	}
 	mon.finalCheck()
@@ -392,7 +469,7 @@ type found struct {
 	violation
 	Script   string   `json:"script"`
 	Calls    script   `json:"calls"`
-	Schedule []int    `json:"schedule"` // client released at each decision
+	Schedule [][]int  `json:"schedule"` // clients released at each decision (several = one batch)
 	Steps    []string `json:"steps"`
 	Outcomes string   `json:"return_values"`
 }
@@ -417,8 +494,8 @@ type scriptReport struct {
 
 func (rep *scriptReport) account(rr *runResult, ntKey func(string)) {
 	rep.Schedules++
-	if len(rr.nodes) > rep.MaxDepth {
-		rep.MaxDepth = len(rr.nodes)
+	if len(rr.trace) > rep.MaxDepth {
+		rep.MaxDepth = len(rr.trace)
 	}
 	o := rr.outcomeKey()
 	rep.Outcomes[o]++
@@ -458,7 +535,7 @@ func (rep *scriptReport) account(rr *runResult, ntKey func(string)) {
 // subtrees lists the choice prefixes of length depth (or shorter, for schedules that end
 // earlier) that partition the schedule tree of sc, so that one script can be enumerated by
 // several workers. The discovery runs are not counted anywhere.
-func (w *worker) subtrees(sc script, depth int) ([][]int, bool) {
+func (w *worker) subtrees(sc script, batch bool, depth int) ([][]int, bool) {
 	saved := w.st
 	w.st = newStats()
 	defer func() { w.st = saved }()
@@ -473,7 +550,7 @@ func (w *worker) subtrees(sc script, depth int) ([][]int, bool) {
 			out = append(out, append([]int{}, p...))
 			return
 		}
-		rr := w.run(sc, func(d int, enabled []int) int {
+		rr := w.run(sc, batch, func(d int, opts [][]int) int {
 			if d < len(p) {
 				return p[d]
 			}
@@ -535,12 +612,12 @@ func newReport(family string, sc script, exhaustive bool) *scriptReport {
 // budget is shared by all subtree jobs of the script and starts at the combinatorial bound
 // (two store operations per call): a tree that turns out larger is not what the sizes were
 // planned for (e.g. a changed LeaseTable making three store operations) and is cut there.
-func (w *worker) exploreDFS(family string, sc script, fixed []int, budget *atomic.Int64, ntKey func(string)) *scriptReport {
+func (w *worker) exploreDFS(family string, sc script, batch bool, fixed []int, budget *atomic.Int64, ntKey func(string)) *scriptReport {
 	rep := newReport(family, sc, true)
 	prefix := append([]int{}, fixed...)
 	for {
 		p := prefix
-		rr := w.run(sc, func(depth int, enabled []int) int {
+		rr := w.run(sc, batch, func(depth int, opts [][]int) int {
 			if depth < len(p) {
 				return p[depth] // out of range ⇒ divergence, detected by run
 			}
@@ -558,7 +635,7 @@ func (w *worker) exploreDFS(family string, sc script, fixed []int, budget *atomi
 		if left := budget.Add(-1); left < 0 {
 			rep.Exhaustive = false
 			if left == -1 {
-				rep.Unsure = append(rep.Unsure, fmt.Sprintf("%s: more schedules than the combinatorial bound %.0f (calls make more than two store operations?); enumeration cut", sc, sc.bound()))
+				rep.Unsure = append(rep.Unsure, fmt.Sprintf("%s: more schedules than planned for (bound %.0f at two store operations per call; do calls make more?); enumeration cut", sc, sc.bound()))
 			}
 			return rep
 		}
@@ -577,12 +654,12 @@ func (w *worker) exploreDFS(family string, sc script, fixed []int, budget *atomi
 }
 
 // exploreWalks samples walks random schedules of sc (uniform choice at every decision).
-func (w *worker) exploreWalks(family string, sc script, seed int64, walks int, ntKey func(string)) *scriptReport {
+func (w *worker) exploreWalks(family string, sc script, batch bool, seed int64, walks int, ntKey func(string)) *scriptReport {
 	rep := newReport(family, sc, false)
 	rng := rand.New(rand.NewSource(seed))
 	seen := map[string]struct{}{}
 	for k := 0; k < walks; k++ {
-		rr := w.run(sc, func(depth int, enabled []int) int { return rng.Intn(len(enabled)) })
+		rr := w.run(sc, batch, func(depth int, opts [][]int) int { return rng.Intn(len(opts)) })
 		if rr.status != runOK {
 			rep.Unsure = append(rep.Unsure, fmt.Sprintf("%s: watchdog fired in walk %d", sc, k))
 			return rep
@@ -594,14 +671,18 @@ func (w *worker) exploreWalks(family string, sc script, seed int64, walks int, n
 	return rep
 }
 
-// replaySchedule forces the recorded sequence of clients.
-func (w *worker) replaySchedule(sc script, schedule []int) *runResult {
-	return w.run(sc, func(depth int, enabled []int) int {
+// replaySchedule forces the recorded sequence of releases.
+func (w *worker) replaySchedule(sc script, schedule [][]int) *runResult {
+	batch := false
+	for _, p := range schedule {
+		batch = batch || len(p) > 1
+	}
+	return w.run(sc, batch, func(depth int, opts [][]int) int {
 		if depth >= len(schedule) {
 			return 0
 		}
-		for i, e := range enabled {
-			if e == schedule[depth] {
+		for i, o := range opts {
+			if fmt.Sprint(o) == fmt.Sprint(schedule[depth]) {
 				return i
 			}
 		}
